@@ -1,0 +1,19 @@
+//go:build verif
+
+package datadog
+
+import (
+	"github.com/relex/gotils/logger"
+	"github.com/relex/slog-agent/base"
+	"github.com/relex/slog-agent/output/shared"
+)
+
+// VerifNewChunkMaker is NewChunkMaker with custom chunk limits, for the verification harness (build tag "verif" only).
+func VerifNewChunkMaker(parentLogger logger.Logger, maxRecords, maxSizeBytes int) base.LogChunkMaker {
+	newChunkFunc := buildNewChunkFunc(parentLogger, maxRecords, maxSizeBytes)
+	chunkFactory := shared.NewChunkFactory(chunkIDSuffix, bufCapacity, newChunkFunc)
+	return shared.NewMessagePacker(parentLogger, chunkFactory)
+}
+
+// VerifDefaultChunkLimits returns (chunkMaxRecords, chunkMaxSizeBytes)
+func VerifDefaultChunkLimits() (int, int) { return chunkMaxRecords, chunkMaxSizeBytes }
